@@ -457,8 +457,10 @@ PROPS = {
         ],
     },
     "C13": {
-        "units": ["static", "controllers", "forms"],
+        "units": ["static", "controllers", "forms", "server", "app", "log", "multipart"],
         "level": "other",
+        "falsifier": ["fswatch"],
+        "case_prefixes": ["c13_"],
         "counts": counts_for("C13"),
         "explanation": "Effect precondition: every mutating function of file_ext (write_file, create_file, delete_file, read_or_create_and_write, create_directory, delete_directory, create_symlink, copy_file) is declared with `requires false`; Verus proves that none of the functions under contract (all StaticResourceController functions, Range::get_content_range_list) can call one. Adding such a call to any of them fails a named obligation. Functions on the request path that are NOT under contract (other controllers, Log) are not covered.",
         "samples": ["FileExt::write_file / precondition / false  (no call site exists in any function under contract)"],
